@@ -218,11 +218,26 @@ fn eol(rng: &mut Rng, style: u8) -> &'static [u8] {
 
 /// text that looks like an object inside data (the scan does not know it is inside a stream)
 fn decoy(rng: &mut Rng, victim: u32) -> Vec<u8> {
-    match rng.below(4) {
+    match rng.below(12) {
         0 => format!("\n{} 0 obj\n<< /Fake true >>\nendobj\n", victim).into_bytes(),
         1 => format!("\r{} 0 obj\r(decoy)\rendobj\r", victim).into_bytes(),
         2 => format!("\n  {}   0   obj\n<< /Type /Catalog /Pages 2 0 R /Fake true >>\nendobj\n", victim).into_bytes(),
-        _ => format!("\n{} 0 obj", victim).into_bytes(),
+        3 => format!("\n{} 0 obj", victim).into_bytes(),
+        // boundaries of parse::<u32>() / parse::<u16>(), sign, near misses of the keyword
+        4 => format!("\n+{} +0 obj\n(plus)\nendobj\n", victim).into_bytes(),
+        5 => format!("\n{} {} obj\n(gen)\nendobj\n", victim, rng.pick(&[255u32, 256, 65535, 65536, 70000])).into_bytes(),
+        6 => format!("\n{} 0 obj\n(big)\nendobj\n", rng.pick(&[4294967295u64, 4294967296, 99999999999])).into_bytes(),
+        7 => format!("\n{} 0 xobj\n{} 0 objx\n-{} 0 obj\n{}.0 0 obj\n", victim, victim, victim, victim).into_bytes(),
+        8 => format!("\n{}\u{a0}0\u{2003}obj\n(unicode blanks)\nendobj\n", victim).into_bytes(),
+        9 => format!("\n{} 0 obj {} 0 obj\n(two)\nendobj\n", victim, victim + 1).into_bytes(),
+        10 => format!("\nxx obj {} 0 obj\n(not first)\nendobj\n", victim).into_bytes(),
+        _ => {
+            let mut v = format!("\n{} 0 ", victim).into_bytes();
+            v.extend(b"\xffobj\n\xc2");
+            v.extend(format!("\n{} 0 obj", victim).as_bytes());
+            v.extend(b"\xe2\x80\n");
+            v
+        }
     }
 }
 
@@ -272,7 +287,7 @@ fn build_intact(rng: &mut Rng, big: bool, with_decoy: bool) -> (Layout, String) 
     for k in 0..extras {
         let n = next;
         next += 1;
-        let gen = if allow_gen && rng.chance(1, 2) { 1 + rng.below(3) as u16 } else { 0 };
+        let gen = if allow_gen && rng.chance(1, 2) { *rng.pick(&[1u16, 2, 255, 256, 65535]) } else { 0 };
         bodies.push((n, gen, format!("<< /Extra {} /Ref {} 0 R >>", k, 1 + rng.below(n as u64)).into_bytes()));
     }
     // the catalog: object 1, or (1 in 4) the highest number with a filler as object 1
